@@ -132,4 +132,182 @@ theorem Uniform.new_panics {B P range : Nat} (hP1 : 1 ≤ P) (hP : P ≤ B)
     omega
   · exact ⟨"uniform.new.assert_range", by rw [if_pos h1]⟩
 
+
+theorem specEnc_uniExt {P range : Nat} (h2 : 2 ≤ range) (s : Nat) :
+    specEnc (uniExt P range) s =
+      if s < range - 1 then some (s * (2 ^ P / range), 2 ^ P / range)
+      else if s = range - 1 then
+        some ((range - 1) * (2 ^ P / range), 2 ^ P - (range - 1) * (2 ^ P / range))
+      else none := by
+  unfold specEnc
+  rw [uniExt_length]
+  by_cases hsl : s < range - 1
+  · rw [if_pos (by omega), if_pos hsl, uniExt_getD_lt P range (by omega),
+      uniExt_getD_lt P range (by omega), Nat.succ_mul]
+    simp
+  · rw [if_neg hsl]
+    by_cases hse : s = range - 1
+    · subst hse
+      have e : range - 1 + 1 = range := by omega
+      rw [if_pos (by omega), if_pos rfl, uniExt_getD_lt P range (by omega), e, uniExt_getD_last]
+    · rw [if_neg hse, if_neg (by omega)]
+
+/-- `left_cumulative_and_probability` of a constructed uniform model is the specification for
+    *every* `usize` symbol: values `≥ 2^B` are rejected before narrowing (C09, D9) -/
+theorem Uniform.enc_eq {B P range : Nat} (hP : P ≤ B) (h2 : 2 ≤ range)
+    (hle : range ≤ 2 ^ P) (s : Nat) :
+    Uniform.enc B P { ppb := 2 ^ P / range, last := range - 1 } s =
+      .ok (specEnc (uniExt P range) s) := by
+  obtain ⟨hpos, hmul, hlt, hlast, hlast0⟩ := ppb_facts h2 hle
+  have hPB := pow_le_pow_of_le hP
+  rw [specEnc_uniExt h2]
+  unfold Uniform.enc
+  simp only
+  by_cases hs : s < 2 ^ B
+  · rw [if_neg (by omega)]
+    by_cases hsl : s < range - 1
+    · rw [if_pos hsl, if_pos hsl]
+      have hle' : (s + 1) * (2 ^ P / range) ≤ (range - 1) * (2 ^ P / range) :=
+        Nat.mul_le_mul_right _ (by omega)
+      have hexp : (s + 1) * (2 ^ P / range) = s * (2 ^ P / range) + 2 ^ P / range := Nat.succ_mul _ _
+      have hw : wmul B s (2 ^ P / range) = s * (2 ^ P / range) := by
+        unfold wmul; exact Nat.mod_eq_of_lt (by omega)
+      rw [hw]
+    · rw [if_neg hsl, if_neg hsl]
+      by_cases hse : s = range - 1
+      · subst hse
+        have hw : wmul B (range - 1) (2 ^ P / range) = (range - 1) * (2 ^ P / range) := by
+          unfold wmul; exact Nat.mod_eq_of_lt (by omega)
+        rw [if_pos rfl, if_pos rfl, hw, wsub_total hP hlast0 hlast]
+        rw [if_neg (by omega)]
+      · rw [if_neg hse, if_neg hse]
+  · rw [if_pos hs, if_neg (by omega), if_neg (by omega)]
+
+theorem div_facts (q k : Nat) (hk : 0 < k) : q / k * k ≤ q ∧ q < (q / k + 1) * k := by
+  have h1 := Nat.div_add_mod q k
+  have h2 := Nat.mod_lt q hk
+  have h3 : k * (q / k) = q / k * k := Nat.mul_comm _ _
+  have h4 : (q / k + 1) * k = q / k * k + k := Nat.succ_mul _ _
+  omega
+
+theorem Uniform.dec_eq {B P range : Nat} (hP : P ≤ B) (hr : range < 2 ^ U) (h2 : 2 ≤ range)
+    (hle : range ≤ 2 ^ P) {q : Nat} (hq : q < 2 ^ P) :
+    Uniform.dec B P { ppb := 2 ^ P / range, last := range - 1 } q =
+      .ok (specDec (uniExt P range) q) := by
+  obtain ⟨hpos, hmul, hlt, hlast, hlast0⟩ := ppb_facts h2 hle
+  have hPB := pow_le_pow_of_le hP
+  have hv := uniExt_valid h2 hle
+  obtain ⟨hd1, hd2⟩ := div_facts q (2 ^ P / range) hpos
+  have hdm := Nat.div_add_mod q (2 ^ P / range)
+  unfold Uniform.dec
+  simp only
+  rw [if_neg (by omega)]
+  by_cases hg : q / (2 ^ P / range) < range - 1
+  · rw [if_pos hg]
+    unfold csub
+    rw [if_pos (Nat.mod_le _ _)]
+    simp only
+    have hin : InBin (uniExt P range) (q / (2 ^ P / range)) q := by
+      refine ⟨by rw [uniExt_length]; omega, ?_, ?_⟩
+      · rw [uniExt_getD_lt P range (by omega)]; exact hd1
+      · rw [uniExt_getD_lt P range (by omega)]; exact hd2
+    have hidx := InBin.unique hv.2.2.2 (specIdx_inBin hv hq) hin
+    unfold specDec
+    rw [hidx, uniExt_getD_lt P range (by omega), uniExt_getD_lt P range (by omega)]
+    have hn : narrow U (q / (2 ^ P / range)) = q / (2 ^ P / range) := by
+      unfold narrow; exact Nat.mod_eq_of_lt (by omega)
+    have h3 : (2 ^ P / range) * (q / (2 ^ P / range)) = q / (2 ^ P / range) * (2 ^ P / range) :=
+      Nat.mul_comm _ _
+    have e1 : q - q % (2 ^ P / range) = q / (2 ^ P / range) * (2 ^ P / range) := by omega
+    have e2 : (q / (2 ^ P / range) + 1) * (2 ^ P / range) - q / (2 ^ P / range) * (2 ^ P / range)
+        = 2 ^ P / range := by rw [Nat.succ_mul]; omega
+    rw [hn, e1, e2]
+  · rw [if_neg hg]
+    unfold cmul
+    rw [if_pos (by omega)]
+    simp only
+    rw [wsub_total hP hlast0 hlast, if_neg (by omega)]
+    have hge : (range - 1) * (2 ^ P / range) ≤ q / (2 ^ P / range) * (2 ^ P / range) :=
+      Nat.mul_le_mul_right _ (by omega)
+    have hin : InBin (uniExt P range) (range - 1) q := by
+      refine ⟨by rw [uniExt_length]; omega, ?_, ?_⟩
+      · rw [uniExt_getD_lt P range (by omega)]; omega
+      · have e : range - 1 + 1 = range := by omega
+        rw [e, uniExt_getD_last]; exact hq
+    have hidx := InBin.unique hv.2.2.2 (specIdx_inBin hv hq) hin
+    unfold specDec
+    have e : range - 1 + 1 = range := by omega
+    rw [hidx, uniExt_getD_lt P range (by omega), e, uniExt_getD_last]
+    have hn : narrow U (range - 1) = range - 1 := by
+      unfold narrow; exact Nat.mod_eq_of_lt (by omega)
+    rw [hn]
+
+/-- the quantile function never faults, whatever `Probability` value it is given -/
+theorem Uniform.dec_total {B P range : Nat} (hP : P ≤ B) (h2 : 2 ≤ range)
+    (hle : range ≤ 2 ^ P) (q : Nat) :
+    ∃ r, Uniform.dec B P { ppb := 2 ^ P / range, last := range - 1 } q = .ok r := by
+  obtain ⟨hpos, hmul, hlt, hlast, hlast0⟩ := ppb_facts h2 hle
+  have hPB := pow_le_pow_of_le hP
+  unfold Uniform.dec
+  simp only
+  rw [if_neg (by omega)]
+  by_cases hg : q / (2 ^ P / range) < range - 1
+  · rw [if_pos hg]
+    unfold csub
+    rw [if_pos (Nat.mod_le _ _)]
+    exact ⟨_, rfl⟩
+  · rw [if_neg hg]
+    unfold cmul
+    rw [if_pos (by omega)]
+    simp only
+    rw [wsub_total hP hlast0 hlast, if_neg (by omega)]
+    exact ⟨_, rfl⟩
+
+
+theorem Uniform.tableGo_eq {B P : Nat} {m : Uniform} {lastU : Nat} (f : Nat → Nat × Nat × Nat)
+    (l : List Nat) (h : ∀ s ∈ l, Uniform.tableEntry B P m lastU s = .ok (f s)) :
+    Uniform.tableGo B P m lastU l = .ok (l.map f) := by
+  induction l with
+  | nil => rfl
+  | cons s l ih =>
+    simp only [Uniform.tableGo, h s (by simp), ih (fun x hx => h x (by simp [hx])), List.map_cons]
+
+/-- `symbol_table` of a constructed uniform model enumerates the specification -/
+theorem Uniform.table_eq {B P range : Nat} (hP : P ≤ B) (hr : range < 2 ^ U) (h2 : 2 ≤ range)
+    (hle : range ≤ 2 ^ P) :
+    Uniform.table B P { ppb := 2 ^ P / range, last := range - 1 } =
+      .ok (specTable id (uniExt P range)) := by
+  obtain ⟨hpos, hmul, hlt, hlast, hlast0⟩ := ppb_facts h2 hle
+  have hPB := pow_le_pow_of_le hP
+  unfold Uniform.table
+  simp only
+  have hn : narrow U (range - 1) = range - 1 := by
+    unfold narrow; exact Nat.mod_eq_of_lt (by omega)
+  rw [hn]
+  unfold cadd
+  rw [if_pos (by omega)]
+  simp only
+  have e : range - 1 + 1 = range := by omega
+  rw [e]
+  rw [Uniform.tableGo_eq (fun i => (id i, (uniExt P range).getD i 0,
+    (uniExt P range).getD (i + 1) 0 - (uniExt P range).getD i 0))]
+  · simp [specTable, uniExt_length]
+  · intro s hs
+    simp only [List.mem_range] at hs
+    unfold Uniform.tableEntry
+    have hsB : narrow B s = s := by
+      unfold narrow; exact Nat.mod_eq_of_lt (by omega)
+    have hsle : s * (2 ^ P / range) ≤ (range - 1) * (2 ^ P / range) :=
+      Nat.mul_le_mul_right _ (by omega)
+    unfold cmul
+    dsimp only
+    rw [hsB, if_pos (by omega)]
+    simp only [id]
+    rw [uniExt_getD_lt P range hs]
+    by_cases hsl : s = range - 1
+    · subst hsl
+      rw [if_neg (by simp), wsub_total hP hlast0 hlast, if_neg (by omega), e, uniExt_getD_last]
+    · rw [if_pos hsl, uniExt_getD_lt P range (by omega), Nat.succ_mul]
+      simp
+
 end CV.Cat
